@@ -78,6 +78,35 @@ fn brief(r: &AsmResult) -> String {
     }
 }
 
+/// A predecessor with `nlabels` labels (variant 0: valid, 1: fails at backpatch after recording
+/// them, 2: fails on a duplicate of the last one), then sources that re-define / only reference them.
+fn bulk_case(nlabels: usize, variant: usize) -> Case {
+    let mut big = String::from(".orig x0\n");
+    for i in 0..nlabels {
+        big.push_str(&format!("L{i} .fill #{}\n", i % 1000));
+    }
+    let kind = match variant {
+        0 => "valid",
+        1 => {
+            big.push_str("br undefined_lbl\n");
+            "backpatch-failure"
+        }
+        _ => {
+            big.push_str(&format!("L{} halt\n", nlabels - 1));
+            "duplicate-label-failure"
+        }
+    };
+    let redefine = format!("L5 add r0 r0 #1\nL{} br L5\nlea r1 L{}\nhalt\n", nlabels - 1, nlabels - 1);
+    let only_reference = format!("ld r0 L7\nbr L{}\nhalt\n", nlabels / 2);
+    let small = "start add r0 r0 #1\nbr start\n".to_string();
+    Case {
+        sources: vec![small.clone(), big, redefine.clone(), only_reference.clone(), small, redefine, only_reference],
+        stack: variant == 1,
+        kinds: vec!["valid".into(), kind.into(), "valid".into(), "backpatch-failure".into(), "valid".into(), "valid".into(), "backpatch-failure".into()],
+        nontrivial: true,
+    }
+}
+
 fn first_label(p: &Program) -> Option<String> {
     p.lines.iter().find_map(|l| l.label.as_ref().map(|(n, _)| n.clone()))
 }
@@ -182,7 +211,7 @@ impl Prop for C19 {
     }
     fn rule(&self) -> &'static str {
         "Sequences of 2-7 generated sources assembled on one thread with lace::reset_state() between them: valid programs; failing in the lexer (at start / end), in the parser after labels were recorded, at backpatch (undefined label), at emission (label out of reach), \
-         on a duplicate label; the previous source repeated; all drawing label names from the same pool slice so that consecutive sources share names; both feature settings. Oracle: every assembly of the sequence equals (image words, origin, breakpoints, statement spans, or rendered diagnostic + spans) \
+         on a duplicate label; the previous source repeated; plus directed sequences whose second source records 300 .. 60,000 labels (valid, failing at backpatch, failing on a duplicate) followed by small sources that re-define and that only reference those names; all drawing label names from the same pool slice so that consecutive sources share names; both feature settings. Oracle: every assembly of the sequence equals (image words, origin, breakpoints, statement spans, or rendered diagnostic + spans) \
          the assembly of the same text on a fresh thread. Non-trivial: consecutive sources share >= 1 label name and the earlier one failed after recording it or defined it at a different word. Distinct = hash(sequence, flag)."
     }
     fn assumptions(&self) -> Vec<String> {
@@ -208,6 +237,27 @@ impl Prop for C19 {
             }
             o
         });
+        // large predecessors: a source that records very many labels (so that whatever holds them
+        // has grown), valid or failing after recording them, followed by small sources that define
+        // and reference the same names
+        let mut k = 0u64;
+        for nlabels in [300usize, 5_000, 20_000, 30_000, 45_000, 60_000] {
+            for variant in 0..3 {
+                k += 1;
+                if !ctx.mine(k) {
+                    continue;
+                }
+                let case = bulk_case(nlabels, variant);
+                judge_one(ctx, rep, &case, &mut |c| {
+                    let mut o = judge_case(c);
+                    o.label("kind-predecessor-with-very-many-labels");
+                    o
+                });
+            }
+        }
+    }
+    fn fuzz_strategy(&self) -> Option<BoxedStrategy<Value>> {
+        Some(crate::fuzzmode::jv(cases()))
     }
     fn replay(&self, _ctx: &Ctx, case: &Value) -> Obs {
         match serde_json::from_value::<Case>(case.clone()) {
